@@ -281,17 +281,20 @@ claim("C09",
       category="other")
 
 claim("C36",
-      "Only the release decision of the in-process stack is decided: the body of `async with self._reload_lock(run_id)` "
-      "in IdleReleaseDecorator._release_idle_handler (extracted mechanically from the real source) is proved to remove "
-      "a run from memory if and only if the store holds exactly one handler row for it whose idle_since is at least "
-      "idle_timeout in the past at that moment and the run is active - so a release task armed by an earlier idle "
-      "period re-checks - and to touch no other run.",
-      "NOT covered: marking the handler idle (write_to_event_stream: effects are calls on the store, which the engine "
-      "does not log), the reload on the next event (_ensure_active_run: replay + workflow.run), that the run continues "
-      "from where it stopped (C11 / C13), and the whole DBOS stack. The store query and the clock are modelled as "
-      "read once inside the section. This check must not be read as a proof of C36.",
+      "Two pieces of the in-process stack are decided. (1) Marking: _IdleReleaseInternalRunAdapter.write_to_event_stream "
+      "is proved - over a ghost log of its collaborator calls - to stamp the handler row (status running, idle_since = "
+      "now) on EVERY WorkflowIdleEvent of the run, to forward every event to the inner adapter exactly once and to arm "
+      "exactly one deferred release per idle announcement (none otherwise). (2) Release decision: the body of `async "
+      "with self._reload_lock(run_id)` in IdleReleaseDecorator._release_idle_handler (extracted mechanically) removes a "
+      "run from memory if and only if the store holds exactly one handler row for it whose idle_since is at least "
+      "idle_timeout in the past at that moment and the run is active, and touches no other run.",
+      "NOT covered: the reload on the next event (_ensure_active_run: replay + workflow.run), that the run then "
+      "continues from where it stopped (C11 / C13), clearing idle_since on send_event, and the whole DBOS stack. The "
+      "store query and the clock are modelled as read once inside each section. This check must not be read as a "
+      "proof of C36.",
       category="other",
-      technique="contract-based: postconditions on a mechanically extracted section of the real method (pyvc + z3)")
+      technique="contract-based: postconditions on a mechanically extracted section and over a ghost call log of the "
+                "real methods (pyvc + z3)")
 
 claim("C34",
       "BOUNDED STAND-IN, nothing is proved: semver_to_pep440 / pep440_to_semver / detect_change_type are string "
@@ -305,3 +308,19 @@ claim("C34",
       category="exploration",
       technique="bounded stand-in for contract verification: run-time checked contracts on the real functions over an "
                 "exhaustively enumerated finite domain (stated bound); labelled bounded, not counted as proved")
+
+claim("C15",
+      "The place where a run's outcome reaches the handler record is under contract: "
+      "_ServerInternalRunAdapter.write_to_event_stream is proved - over a ghost log of the calls it makes on the runtime, "
+      "the store and the inner adapter - to request exactly one status update when the run publishes its terminal "
+      "event, with the status that matches how it ended (WorkflowFailedEvent / WorkflowTimedOutEvent -> failed, with "
+      "the error text; WorkflowCancelledEvent -> cancelled; any other StopEvent -> completed, with that event as the "
+      "result), for the run's own id, and none for other events or while ticks are replayed; every live event is "
+      "appended to the run's log exactly once and always forwarded to the inner adapter.",
+      "NOT covered: what the store does with the request (AbstractWorkflowStore.update_handler_status: that a terminal "
+      "status is never overwritten by a later `running`), the retry wrapper _retry_store_write, and that every run "
+      "does publish a terminal event (C04 shows that for the reducer; the runner is trusted). `self.run_id` and "
+      "`is_replaying()` are read through the inner adapter and treated as stable during the call.",
+      category="other",
+      technique="contract-based: postconditions over a ghost log of the collaborator calls of the real method "
+                "(pyvc + z3), cross-checked natively with recording stand-ins")
